@@ -170,7 +170,12 @@ def gen_struct(rnd, present):
                     A[j][i] = v
                 else:
                     A[i][j] = v
-        c.update(A=A, lower=lower)
+        # the declared flag need not match the data (Triangular(U) has lower=True by default), and .T / .H flip the flag
+        flag = lower if rnd.random() < 0.6 else (not lower)
+        tr = rnd.choice([None, None, "T", "H"])
+        if "eig_triangular_lower_upper_swapped" in present:
+            flag, tr = False, None
+        c.update(A=A, lower=lower, flag=flag, tr=tr)
     c["sc2"] = 0
     if kind != "ident" and rnd.random() < 0.25:
         # overall scale 2**e (exact): single precision from ~1e-30 to ~1e24, double precision from ~1e-150 to ~1e145
@@ -184,6 +189,17 @@ def gen_struct(rnd, present):
     return c
 
 
+def tri_entries(c):
+    """entries [re, im] of the triangular operator AFTER the optional .T / .H"""
+    A = c["A"]
+    n = c["n"]
+    if c.get("tr") == "T":
+        return [[A[j][i] for j in range(n)] for i in range(n)]
+    if c.get("tr") == "H":
+        return [[[A[j][i][0], -A[j][i][1]] for j in range(n)] for i in range(n)]
+    return A
+
+
 def struct_dense(c):
     n = c["n"]
     sc = 2.0 ** c.get("sc2", 0)
@@ -191,7 +207,7 @@ def struct_dense(c):
         return np.eye(n, dtype=np.complex128)
     if c["kind"] == "diag":
         return np.diag(np.array([complex(*v) for v in c["d"]])) * sc
-    return np.array([[complex(*v) for v in r] for r in c["A"]], dtype=np.complex128) * sc
+    return np.array([[complex(*v) for v in r] for r in tri_entries(c)], dtype=np.complex128) * sc
 
 
 def struct_op(c):
@@ -203,7 +219,10 @@ def struct_op(c):
         return ops.Identity((c["n"], c["n"]), dt)
     if c["kind"] == "diag":
         return ops.Diagonal(np.diag(D).copy())
-    return ops.Triangular(D, lower=c["lower"])
+    D0 = np.array([[complex(*v) for v in r] for r in c["A"]], dtype=np.complex128) * 2.0 ** c.get("sc2", 0)
+    D0 = D0.astype(dt) if cplx_of(c["dt"]) else D0.real.astype(dt)
+    T_ = ops.Triangular(D0, lower=c.get("flag", c["lower"]))
+    return T_.T if c.get("tr") == "T" else (T_.H if c.get("tr") == "H" else T_)
 
 
 # un-annotated operators whose matrix has a special structure that is NOT the annotated one (nothing is declared: the
@@ -418,8 +437,14 @@ def power_case(rnd, nmax, present=()):
     # overall scale of the operator, tiny to huge, and single precision: the stopping test is relative, so the answer must be scale-covariant
     f32 = rnd.random() < 0.2
     sc_ = 1.0
-    if rnd.random() < 0.6:
-        sc_ = 10.0 ** rnd.uniform(-12, 12)
+    if rnd.random() < 0.65:
+        # zones: below the machine epsilon of the dtype (absolute floors such as max(|eig|, eps) show only there), ordinary, huge;
+        # single precision stays where the squares inside the norms neither under- nor overflow
+        zone = rnd.choice(["low", "mid", "high"])
+        if f32:
+            sc_ = 10.0 ** dict(low=rnd.uniform(-17, -8), mid=rnd.uniform(-6, 6), high=rnd.uniform(8, 17))[zone]
+        else:
+            sc_ = 10.0 ** dict(low=rnd.uniform(-30, -17), mid=rnd.uniform(-12, 12), high=rnd.uniform(17, 30))[zone]
         M, lam = M * sc_, lam * sc_
     how = rnd.choice(["auto", "auto", "alg", "alg", "eigmax", "call"])
     kw = {}
@@ -636,8 +661,8 @@ def run(ctx):
         elif c["kind"] == "diag":
             rule = f"(RDiag {bymag} [" + ";".join(L.qic_exact(v[0] * fsc, v[1] * fsc) for v in c["d"]) + "])"
         else:
-            lowrule = "true" if (c["lower"] and "eig_triangular_lower_upper_swapped" not in present and np.any(np.tril(D, -1))) else "false"
-            rule = f"(RTri {bymag} {lowrule} [" + ";".join("[" + ";".join(L.qic_exact(v[0] * fsc, v[1] * fsc) for v in r) + "]" for r in c["A"]) + "] " + \
+            lowrule = "true" if ("eig_triangular_lower_upper_swapped" not in present and np.any(np.tril(D, -1))) else "false"
+            rule = f"(RTri {bymag} {lowrule} [" + ";".join("[" + ";".join(L.qic_exact(v[0] * fsc, v[1] * fsc) for v in r) + "]" for r in tri_entries(c)) + "] " + \
                    ("true" if not cplx_of(c["dt"]) or "eig_triangular_complex_drops_imag" in present else "false") + ")"
         scale = max(1.0, float(np.abs(obs["V"]).max(initial=0)), float(np.abs(D).max(initial=0)) if not c.get("sc2") else 1.0)
         tol2 = 0 if c["kind"] in ("ident", "diag") else (tol * 100 * scale) ** 2
